@@ -15,6 +15,7 @@ import (
 	"strings"
 	"sync"
 	"sync/atomic"
+	"syscall"
 	"time"
 
 	"github.com/cuteLittleDevil/go-jt808/protocol/jt808"
@@ -48,7 +49,9 @@ func (r *recorder) log(c int, proc, name string, kv ...any) {
 }
 
 type live struct {
-	noFilter  bool // the server runs WithHasSubcontract(false)
+	slackMs   atomic.Int64 // how late a time-out result may be (ms); 0 = 1300; scenarios that never park the writer set less
+	muted     sync.Map     // connection index -> *atomic.Int64: per-message events of a flooding connection are counted, not recorded
+	noFilter  bool         // the server runs WithHasSubcontract(false)
 	g         *service.GoJT808
 	addr      string
 	rec       *recorder
@@ -94,12 +97,20 @@ func (e *liveEventer) OnNotSupportedEvent(msg *service.Message) {
 	}
 }
 func (e *liveEventer) OnReadExecutionEvent(msg *service.Message) {
+	if n, ok := e.l.muted.Load(e.idx); ok {
+		n.(*atomic.Int64).Add(1)
+		return
+	}
 	e.l.rec.log(e.idx, "R", "readcb", msgFields(msg)...)
 	if e.l.readHold != nil {
 		e.l.readHold(e.idx, msg)
 	}
 }
 func (e *liveEventer) OnWriteExecutionEvent(msg service.Message) {
+	if n, ok := e.l.muted.Load(e.idx); ok {
+		n.(*atomic.Int64).Add(1)
+		return
+	}
 	errs := ""
 	if msg.ExtensionFields.Err != nil {
 		errs = msg.ExtensionFields.Err.Error()
@@ -149,6 +160,10 @@ func (l *live) hook(conn any, point string, args []any) {
 		}
 		c = idx
 		l.mu.Unlock()
+	}
+	if n, ok := l.muted.Load(c); ok && (point == "W.sel.msg" || point == "W.reply.before" || point == "W.top" || strings.HasPrefix(point, "R.")) {
+		n.(*atomic.Int64).Add(1)
+		return
 	}
 	switch point {
 	case "W.sel.msg":
@@ -308,10 +323,20 @@ type term struct {
 // dial connects one terminal; dials are serialised so that accept order = index order.
 var dialMu sync.Mutex
 
-func (l *live) dial(phone []byte, ver int) *term {
+func (l *live) dial(phone []byte, ver int) *term { return l.dialWith(phone, ver, false) }
+
+// dialWith(noRead): a terminal that never reads and advertises a tiny receive window (SO_RCVBUF set before connect),
+// so that the server's writes to it stall after a few kilobytes
+func (l *live) dialWith(phone []byte, ver int, noRead bool) *term {
 	dialMu.Lock()
 	defer dialMu.Unlock()
-	c, err := net.Dial("tcp", l.addr)
+	d := net.Dialer{}
+	if noRead {
+		d.Control = func(network, address string, rc syscall.RawConn) error {
+			return rc.Control(func(fd uintptr) { syscall.SetsockoptInt(int(fd), syscall.SOL_SOCKET, syscall.SO_RCVBUF, 2048) })
+		}
+	}
+	c, err := d.Dial("tcp", l.addr)
 	if err != nil {
 		die("dial:", err)
 	}
@@ -324,7 +349,9 @@ func (l *live) dial(phone []byte, ver int) *term {
 	t := &term{l: l, idx: idx, conn: c.(*net.TCPConn), phone: phone, ver: ver, recvCh: make(chan []byte, 100000)}
 	t.conn.SetNoDelay(true)
 	l.rec.log(idx, "D", "reset", "ver", ver, "phone", B(phone), "filter", !l.noFilter)
-	go t.readLoop()
+	if !noRead {
+		go t.readLoop()
+	}
 	return t
 }
 
@@ -418,7 +445,11 @@ type cmdResult struct {
 func (l *live) sendActive(c, k int, key string, cmd consts.JT808CommandType, body []byte, tmo time.Duration) cmdResult {
 	am := service.NewActiveMessage(key, cmd, body, tmo)
 	l.cmds.Store(am, k)
-	l.rec.log(c, "K", "cmd_call", "k", k, "key", key, "cmd", int(cmd), "body", B(body), "tmo", int(tmo/time.Millisecond))
+	slack := int(l.slackMs.Load())
+	if slack == 0 {
+		slack = 1300 // the caller's own deadline (time-out + 1 s) plus scheduling slack: what holds even while the harness parks the writer
+	}
+	l.rec.log(c, "K", "cmd_call", "k", k, "key", key, "cmd", int(cmd), "body", B(body), "tmo", int(tmo/time.Millisecond), "slack", slack)
 	t0 := time.Now()
 	// watchdog: a call that has not returned long after its time-out is reported, not waited for
 	resCh := make(chan *service.Message, 1)
